@@ -42,6 +42,8 @@ type Sched struct {
 	Unknown  int // yields from goroutines that were never Started
 	MaxPar   int // max number of simultaneously parked tasks (>=2 => a real choice existed)
 	Choices  int // decisions with >= 2 candidates
+	// Hold, when set, filters the tasks the harness is willing to release at this point
+	Hold func([]*Parked) []*Parked
 	// strategy
 	Strategy int
 	prio     map[string]int
